@@ -87,6 +87,10 @@ def run(ck):
     sw = reactor.run_configs(ck, configs(ck.tier), FOCUS, env={"VERIF_TICKUS": "2000"})
     reactor.scripted(ck, sw, "signal", signal_scenarios() * (1 if ck.tier == "quick" else 10), FOCUS,
                      "scripted: SIGUSR1 interrupts RunOneFor / RunOne")
+    # the accounting of a deferred accept whose connection is taken by someone else before its handler runs
+    from checks import c01
+    reactor.scripted(ck, sw, "shared_listener", c01.shared_listener_scenarios(), FOCUS,
+                     "scripted: the queued connection is taken by another acceptor before the accept handler runs")
     ck.cov["exhaustive"] = False
 
 
